@@ -151,6 +151,19 @@ func runVirtual(plan pipesim.Plan) *vkit.Outcome {
 	return o
 }
 
+// genMultiHold: plans in which two actions of the chain may hold / collapse at overlapping times
+// (known-finding class, kept in its own unit so that the main search stays clean).
+func genMultiHold(t *rapid.T) pipesim.Plan {
+	return pipesim.GenPlan(t, pipesim.GenOpts{
+		AllowSync: true, AllowBatched: true, AllowHold: true, AllowRefuse: false, MultiHold: true,
+		MaxRecords: 24, MaxSources: 2, TimeoutFlush: rapid.Bool().Draw(t, "timeout_flush"),
+	})
+}
+
+var propMultiHold = vkit.NewProp(allProps, "pipemultihold", genMultiHold, runReal)
+
+func TestPipeMultiHold(t *testing.T) { propMultiHold.CrashFile = true; propMultiHold.Check(t) }
+
 var propReal = vkit.NewProp(allProps, "pipereal", genReal, runReal)
 var propVirtual = vkit.NewProp(allProps, "pipevirtual", genVirtual, runVirtual)
 
